@@ -2,10 +2,48 @@ import os
 
 PROPERTY = "C09"
 LEVEL = "model_checking"
-FUNCTIONS = ["store_completed"]
-TRUSTED = []
-ASSUMPTIONS = []
-EXPLANATION = ""
+FUNCTIONS = [
+    "store_completed", "get_next_work_item", "worker_proc", "try_dequeue_done",
+    "submit", "dequeue", "get_status", "set_worker_ptr", "destroy", "free_item_list",
+    "threadpool_serial.c: submit", "threadpool_serial.c: dequeue", "threadpool_serial.c: get_status",
+    "dequeue_block", "process_completed_block", "store_io_block", "release_old_block",
+]
+TRUSTED = [
+    "pthread_mutex_lock/unlock implement mutual exclusion; pthread_cond_wait atomically releases and re-acquires the mutex "
+    "(contracts in harness/C09/pool_model.h: lock and every return of cond_wait deliver an arbitrary shared state within the "
+    "monitor invariant INV, wake-ups may be spurious; broadcast wakes every waiter)",
+    "pthread_join returns after the worker thread has left worker_proc; pthread_{cond,mutex}_destroy have no effect on the lists",
+    "the work callback (thread_pool_worker_t) terminates, may return any status, and does not touch the pool",
+    "calloc/free: CBMC memory model, every allocation may fail",
+    "sqfs_block_writer_t.write_data_block: any result <= 0, any location; thread_pool_t seen by the block processor: the abstract "
+    "FIFO/exactly-once/sticky-status contract established by the threadpool harnesses (harness/C09/bp_env.h)",
+]
+ASSUMPTIONS = [
+    "NOT decided: real OS scheduling, fairness, termination of the worker callback, that the pthread primitives implement a monitor. "
+    "Deadlock freedom is claimed only as its safety premises: INV at every release + the signalling rule (C09.signal) + "
+    "C09.no_stuck (nobody sleeps while the thing it waits for can no longer arrive); CBMC cannot explore the threads themselves "
+    "(\"pointer handling for concurrency is unsound\")",
+    "every harness is bounded(list nodes <= K): queue, done, safe_done, recycle have at most K = 2 (quick) / 3 (quick+thorough) nodes at each "
+    "acquisition of the monitor, at most K worker threads; list lengths, tickets (full 64 bit), data pointers, status, the number of "
+    "items in other workers' hands are symbolic",
+    "fewer than 2^64 - 64 submissions in the life of a pool (next_ticket does not wrap)",
+    "single consumer: submit, dequeue, get_status, set_worker_ptr, destroy are called from one thread (the API contract behind the "
+    "unlocked recycle/safe_done/item_count fields); hence destroy() owes no broadcast on done_cond",
+    "proof cuts (standard loop rule, stated in pool_model.h): after each lock one return of cond_wait is explored with a fresh arbitrary "
+    "INV state (the loop condition is re-evaluated by the real code); the following wait is checked like any release and ends the path. "
+    "worker_proc: the first pass and one general pass of its endless loop are explored, the third lock ends the path; in the quick tier "
+    "its waits end the path immediately (the wake-up continuation is the get_next harness), the thorough tier explores them too",
+    "the in-worker set W is defined as the complement of queue and done in [next_dequeue_ticket, next_ticket): other workers' items are "
+    "not individually tracked; their sections are covered by the same harness instantiated for them (WIDX case split)",
+    "block processor: only dequeue_block() with plain data blocks (no fragment kinds, no inode attached, empty io_queue, <= 2 blocks in the "
+    "pool); sync()/finish() are covered by the argument that they return the first non-zero result of dequeue_block()",
+    "thread_pool_create (thread start-up, signal masks) and the Windows wrapper are outside",
+]
+EXPLANATION = ("classical monitor proof: each critical section of threadpool.c is verified sequentially from an arbitrary "
+               "shared state satisfying the monitor invariant and must re-establish it at every unlock/wait, with ghost "
+               "lock and broadcast flags for lock discipline and the signalling rule; FIFO / exactly-once / context / frame "
+               "are section-local postconditions; the serial pool and the block processor's dequeue_block are checked "
+               "against the same abstract pool contract")
 
 K2 = {"KQ": 2, "KD": 2, "KS": 2, "KR": 2, "NW": 2}
 K3 = {"KQ": 3, "KD": 3, "KS": 3, "KR": 3, "NW": 3}
